@@ -250,6 +250,8 @@ Framed(b) ==
   /\ Len(b) >= 2
   /\ LET r == DecVBI(b, 2, Len(b), Len(b), FALSE) IN r.ok /\ r.next + r.val - 1 = Len(b)
 
+(* b is delimited as one frame by a (possibly non-minimal) remaining length *)
+Delimited(b) == Len(b) >= 2 /\ LET r == VBIRead(Tail(b)) IN r.kind = "value" /\ Len(b) = 1 + r.width + r.val
 FrameLen(b) == LET r == DecVBI(b, 2, Len(b), Len(b), FALSE) IN r.next + r.val - 1
 
 (***************************************************************************)
@@ -403,6 +405,7 @@ TypeName(t) ==
     [] t = 4 -> "PubAck" [] t = 5 -> "PubRec" [] t = 6 -> "PubRel" [] t = 7 -> "PubComp"
     [] t = 8 -> "Subscribe" [] t = 9 -> "SubAck" [] t = 10 -> "Unsubscribe" [] t = 11 -> "UnsubAck"
     [] t = 12 -> "PingReq" [] t = 13 -> "PingResp" [] t = 14 -> "Disconnect" [] t = 15 -> "Auth"
+    [] t = 16 -> "TopicFilter"      \* not a packet: a value the API takes and a program may keep (PacketAPI, Trace)
 
 (***************************************************************************)
 (* Well-formedness of an abstract wire packet: DOMAIN v agrees with the    *)
